@@ -847,17 +847,29 @@ theorem current_variant_findings (h : currentVariant = Variant.code) : ¬ FullSt
   h ▸ Neg.full_statement_false
 
 open LinVerif.Generated.C12 in
+/-- the shape of `handleResponse` and the variant flag the driver uses agree: either the code as it
+is (aggregator built once, nothing else done with later specs) or the repair
+`fixes/C12-merge-later-specs.patch` (`AddSpecs` on every later response) -/
 theorem generated_first_response_rule :
-    aggregatorCreatedOnce = true ∧ groupAggCalls = ["Aggregate"] ∧
-    skipsFieldWithoutAggregator = true ∧ skipsSeriesWithoutFields = true := by decide
+    aggregatorCreatedOnce = true ∧ skipsFieldWithoutAggregator = true ∧ skipsSeriesWithoutFields = true ∧
+    ((groupAggCalls = ["Aggregate"] ∧ mergesLaterSpecs = false) ∨
+     (groupAggCalls = ["AddSpecs", "Aggregate"] ∧ mergesLaterSpecs = true)) := by decide
 
 open LinVerif.Generated.C12 in
-/-- the statement order `Ctx.handle` / `Ctx.absorb` mirror -/
+/-- the statement order `Ctx.handle` / `Ctx.absorb` mirror (as it is, or with the repair) -/
 theorem generated_handleResponse_steps :
     handleResponseSteps = ["mutex.Lock", "defer mutex.Unlock", "ctx.handleTaskState", "ctx.expectResults--",
       "ctx.handleStats", "ignoreResponse :=", "if err != nil", "if ignoreResponse", "tsList :=", "if err != nil",
       "if len(tsList.FieldAggSpecs) == 0", "ctx.timeRange =", "ctx.interval =", "range tsList.FieldAggSpecs",
-      "if ctx.groupAgg == nil", "range tsList.TimeSeriesList"] := by decide
+      "if ctx.groupAgg == nil", "range tsList.TimeSeriesList"] ∨
+    handleResponseSteps = ["mutex.Lock", "defer mutex.Unlock", "ctx.handleTaskState", "ctx.expectResults--", "ctx.handleStats", "ignoreResponse :=", "if err != nil", "if ignoreResponse", "tsList :=", "if err != nil", "if len(tsList.FieldAggSpecs) == 0", "ctx.timeRange =", "ctx.interval =", "range tsList.FieldAggSpecs", "AggregatorSpecs :=", "range tsList.FieldAggSpecs", "if ctx.groupAgg == nil", "range tsList.TimeSeriesList"] := by decide
+
+open LinVerif.Generated.C12 in
+/-- `fieldAggregator.Aggregate` and the cross-feed flag agree: as it is (every primitive series goes
+through `AggregateBySlot`, i.e. into every kind) or with `fixes/C12-merge-by-agg-type.patch` -/
+theorem generated_field_aggregate :
+    (fieldAggregateCalls = ["it.HasNext", "it.Next", "pIt.HasNext", "pIt.Next", "a.AggregateBySlot"] ∧ crossFeeds = true) ∨
+    (fieldAggregateCalls = ["it.HasNext", "it.Next", "pIt.AggType", "pIt.HasNext", "pIt.Next", "math.IsInf", "a.aggregate"] ∧ crossFeeds = false) := by decide
 
 open LinVerif.Generated.C12 in
 theorem generated_checkError :
